@@ -60,6 +60,10 @@ def _convert(mapped_dict: dict, mapping):
 
 def convert_dict(the_dict: dict, versions_mapping):
     start_version = the_dict.get("version", 1)
+    if isinstance(start_version, int) and start_version < 1:
+        raise ValueError(
+            f"version: Got {start_version}; Expected a positive integer (versions start at 1)"
+        )
     mapped_dict = copy.deepcopy(the_dict)
     for offset, mapping in enumerate(versions_mapping[(start_version - 1) :]):
         mapped_dict = _convert(mapped_dict, mapping)
